@@ -34,6 +34,7 @@ import (
 	encgob "encoding/gob"
 	"encoding/hex"
 	"encoding/json"
+	"errors"
 	"fmt"
 	"io"
 	"math/big"
@@ -89,6 +90,8 @@ type vCase struct {
 	Winner    string       `json:"winner"`
 	Partial   string       `json:"partial"` // crash mode: "none" | "ends" | "all" (cuts inside a bulk)
 	Recrash   string       `json:"recrash"` // crash mode: "none" | "units" | "ops" (crash during recovery)
+	Pre       []string     `json:"pre"`     // per arrival: "ok" | "ts" (VerifyTimestamp false) | "sign" (VerifySign error)
+	Own       []bool       `json:"own"`     // per arrival: deliver as a block produced by the node itself (bstate != nil)
 }
 
 const vHeightCap = 64 // "heights" lists 0..min(maxNo+2, vHeightCap); the raw scan covers the rest
@@ -100,14 +103,21 @@ func hx(b []byte) string { return hex.EncodeToString(b) }
 // vConsensus: StubConsensus of chainservice_test.go except IsConnectedBlock (as sbp/dpos),
 // NeedReorganization (rootNo >= lib) and Save (no-op).
 type vConsensus struct {
-	cdb *ChainDB
-	lib types.BlockNo
+	cdb      *ChainDB
+	lib      types.BlockNo
+	failTs   bool // scripted per arrival ("pre":"ts")
+	failSign bool // scripted per arrival ("pre":"sign")
 }
 
 func (c *vConsensus) SetStateDB(sdb *state.ChainStateDB)        {}
 func (c *vConsensus) IsTransactionValid(tx *types.Tx) bool      { return true }
-func (c *vConsensus) VerifyTimestamp(block *types.Block) bool   { return true }
-func (c *vConsensus) VerifySign(block *types.Block) error       { return nil }
+func (c *vConsensus) VerifyTimestamp(block *types.Block) bool   { return !c.failTs }
+func (c *vConsensus) VerifySign(block *types.Block) error {
+	if c.failSign {
+		return errors.New("verif: scripted block sign failure")
+	}
+	return nil
+}
 func (c *vConsensus) IsBlockValid(b, best *types.Block) error   { return nil }
 func (c *vConsensus) Update(block *types.Block)                 {}
 func (c *vConsensus) Save(tx consensus.TxWriter) error          { return nil }
@@ -509,6 +519,11 @@ func (e *vEngine) build(c *vCase) (*vCtx, error) {
 			return nil, fmt.Errorf("unknown arrival %q", a)
 		}
 	}
+	for _, p := range c.Pre {
+		if p != "" && p != "ok" && p != "ts" && p != "sign" {
+			return nil, fmt.Errorf("unknown pre kind %q", p)
+		}
+	}
 	if c.Winner != "" {
 		if _, ok := x.blks[c.Winner]; !ok {
 			return nil, fmt.Errorf("unknown winner %q", c.Winner)
@@ -873,18 +888,74 @@ func (e *vEngine) observe(n *vNode, x *vCtx) map[string]interface{} {
 	return s
 }
 
-// arrive delivers one block to the node and returns the STEP.
-func (e *vEngine) arrive(n *vNode, x *vCtx, i int) map[string]interface{} {
+// ownBState builds, on the node under test and on its CURRENT state root, the BlockState a block
+// factory would hand to addBlock together with the block: the txs are executed with the real
+// executor exactly as in build() (gas price 0, BlockFactory mode), bs.Update() but no Commit.  A
+// tx that fails is skipped (the executor rolls its snapshot back) and the bstate is built from the
+// txs that did execute.
+func (e *vEngine) ownBState(n *vNode, blk *types.Block) (bs *state.BlockState, err error) {
+	defer func() {
+		if r := recover(); r != nil {
+			bs, err = nil, fmt.Errorf("own: cannot build bstate: panic: %v", r)
+		}
+	}()
+	cs := n.cs
+	bi := types.NewBlockHeaderInfo(blk)
+	bs = cs.sdb.NewBlockState(cs.sdb.GetRoot(), state.SetPrevBlockHash(blk.GetHeader().GetPrevBlockHash()))
+	bs.SetGasPrice(big.NewInt(0))
+	bs.Receipts().SetHardFork(cs.cfg.Hardfork, bi.No)
+	exec := NewTxExecutor(context.Background(), nil, cs.cdb, bi, contract.BlockFactory)
+	for _, tx := range blk.GetBody().GetTxs() {
+		_ = exec(bs, types.NewTransaction(tx))
+	}
+	if err := bs.Update(); err != nil {
+		return nil, fmt.Errorf("own: cannot build bstate: %v", err)
+	}
+	return bs, nil
+}
+
+func vSafeAddOwn(n *vNode, blk *types.Block, bs *state.BlockState) (err error) {
+	defer func() {
+		if r := recover(); r != nil {
+			err = fmt.Errorf("PANIC: %v", r)
+		}
+	}()
+	return n.cs.addBlock(blk, bs, testPeer)
+}
+
+// arrive delivers one block to the node as scripted by the case (lib, pre, own) and returns the STEP.
+func (e *vEngine) arrive(n *vNode, x *vCtx, i int) map[string]interface{} { return e.arriveOpt(n, x, i, false) }
+
+// arriveOpt: plain = deliver as a network block with passing consensus pre-checks whatever the
+// case scripts (second delivery of the crash-free node in crash mode).
+func (e *vEngine) arriveOpt(n *vNode, x *vCtx, i int, plain bool) map[string]interface{} {
 	name := x.c.Arrivals[i]
 	b := x.blks[name]
 	n.cc.lib = 0
 	if i < len(x.c.Lib) {
 		n.cc.lib = x.c.Lib[i]
 	}
+	pre, own := "ok", false
+	if !plain {
+		if i < len(x.c.Pre) && x.c.Pre[i] != "" {
+			pre = x.c.Pre[i]
+		}
+		own = i < len(x.c.Own) && x.c.Own[i]
+	}
 	n.rec.reset()
 	_, e0 := n.cs.cdb.getBlock(b.id)
 	before := e0 == nil
-	err := vSafeAdd(n, b.clone())
+	n.cc.failTs, n.cc.failSign = pre == "ts", pre == "sign"
+	var err error
+	if own {
+		var bs *state.BlockState
+		if bs, err = e.ownBState(n, b.clone()); err == nil {
+			err = vSafeAddOwn(n, b.clone(), bs)
+		}
+	} else {
+		err = vSafeAdd(n, b.clone())
+	}
+	n.cc.failTs, n.cc.failSign = false, false
 	_, e1 := n.cs.cdb.getBlock(b.id)
 	after := e1 == nil
 	s := e.observe(n, x)
@@ -908,6 +979,8 @@ func (e *vEngine) arrive(n *vNode, x *vCtx, i int) map[string]interface{} {
 	}
 	s["res"] = res
 	s["err"] = es
+	s["pre"] = pre
+	s["own"] = own
 	put := append([]string{}, n.rec.put...)
 	sort.Strings(put)
 	s["put"] = put
